@@ -55,10 +55,16 @@ struct Inst {
     implicit: u64,
     /// tokens the transaction mints (they enter on the input side)
     minted: Vec<((Vec<u8>, Vec<u8>), i128)>,
+    /// the re-evaluations of the largest-first / insufficiency clauses re-add inputs by (address, input, amount)
+    /// and cannot reproduce script-carrying or already-present UTxOs: those clauses are not judged then
+    no_reeval: bool,
 }
 
 fn make_instance(r: &mut Rng, ring: &'static KeyRing, n_offered: usize, k: u8) -> Option<Inst> {
-    let params = vkit::ledger::Params { fee_a: 44, fee_b: 155_381, key_deposit: 2_000_000, pool_deposit: 500_000_000, coins_per_byte: 4310, max_value_size: 5000, max_tx_size: 16384, ex_prices: None, ref_script_price: None };
+    // one instance in five prices reference scripts, and some offered UTxOs carry one (spending such a UTxO
+    // is charged for it)
+    let ref_mode = r.below(5) == 0;
+    let params = vkit::ledger::Params { fee_a: 44, fee_b: 155_381, key_deposit: 2_000_000, pool_deposit: 500_000_000, coins_per_byte: 4310, max_value_size: 5000, max_tx_size: 16384, ex_prices: None, ref_script_price: if ref_mode { Some((15, 1)) } else { None } };
     let (cfg, _) = {
         let mut r2 = Rng::new(1);
         make_config(&params, &mut r2)
@@ -170,7 +176,12 @@ fn make_instance(r: &mut Rng, ring: &'static KeyRing, n_offered: usize, k: u8) -
     let mut implicit = 0u64;
     let with_withdrawal = s.r.below(5) == 0;
     if with_withdrawal {
-        let w = *s.r.pick(&[base * n_out + 5_000_000, 20 * base, 500_000, base]);
+        // ... or just covers outputs + the fee of the transaction without inputs
+        let just = guard(|| (tb.get_total_output().map(|v| u64::from(v.coin())), tb.min_fee().map(u64::from))).ok().and_then(|(a, b)| Some(a.ok()? + b.ok()? + s.r.below(3_000)));
+        let w = match (s.r.below(3), just) {
+            (0, Some(j)) => j,
+            _ => *s.r.pick(&[base * n_out + 5_000_000, 20 * base, 500_000, base]),
+        };
         let kx = s.key_ix();
         let ra = RewardAddress::new(s.net, &Credential::from_keyhash(&ring.keys[kx].hash));
         let mut ws = Withdrawals::new();
@@ -196,9 +207,22 @@ fn make_instance(r: &mut Rng, ring: &'static KeyRing, n_offered: usize, k: u8) -
     let mut offered = vec![];
     let mut offered_csl = TransactionUnspentOutputs::new();
     let mut off_desc = vec![];
+    let overlap = !pre.is_empty() && s.r.below(5) == 0;
+    if overlap {
+        // the caller offers its whole wallet again: a UTxO that is already an input of the builder is among
+        // the offered ones (it can be "selected" but brings nothing new)
+        let i = pre[0];
+        offered.push(i);
+        offered_csl.add(&s.csl_utxo(i, None, None));
+        off_desc.push(format!("#pre coin={} (already an input)", s.utxos[i].val.coin));
+    }
     for j in 0..n_offered {
         let coin = *s.r.pick(&lattice);
         let mut v = Val::coin(coin.max(1_000_000));
+        if with_withdrawal && j == n_offered - 1 && s.r.below(3) == 0 {
+            // dust in the last place: worth less than the fee its own input costs
+            v = Val::coin(*s.r.pick(&[1u64, 1_000, 5_000]));
+        }
         if multi && s.r.below(2) == 0 {
             for (id, q) in &want_assets {
                 if s.r.bool() {
@@ -223,11 +247,19 @@ fn make_instance(r: &mut Rng, ring: &'static KeyRing, n_offered: usize, k: u8) -
         let addr = if s.r.below(8) == 0 { ring.byron[s.r.usize(ring.byron.len())].addr.to_address() } else { s.key_address(kx) };
         let i = s.new_utxo(&addr, v.clone());
         offered.push(i);
-        offered_csl.add(&s.csl_utxo(i, None, None));
-        off_desc.push(format!("#{} coin={} assets={:?}", j, v.coin, v.assets.values().collect::<Vec<_>>()));
+        let carried = if ref_mode && s.r.below(3) == 0 {
+            let n = 200 + s.r.usize(2_000);
+            let ps = PlutusScript::new_v2(s.r.bytes(n));
+            s.utxos[i].ref_script_size = ps.bytes().len() as u64;
+            Some(ScriptRef::new_plutus_script(&ps))
+        } else {
+            None
+        };
+        offered_csl.add(&s.csl_utxo(i, None, carried.as_ref()));
+        off_desc.push(format!("#{} coin={} assets={:?}{}", j, v.coin, v.assets.values().collect::<Vec<_>>(), if carried.is_some() { format!(" script={}B", s.utxos[i].ref_script_size) } else { String::new() }));
     }
-    let desc = json!({"strategy": strat(k).1, "outputs": outs_desc, "offered": off_desc, "pre_existing": pre.iter().map(|i| s.utxos[*i].val.coin).collect::<Vec<_>>(), "withdrawal": implicit, "identical_outputs": identical, "burn": burned.as_ref().map(|(_, q)| q.to_string()), "set_min_fee": asked_min_fee, "mints_two_policies": !minted.is_empty()});
-    Some(Inst { tb, utxos: s.utxos, offered, pre, offered_csl, k, desc, outputs_have_assets, implicit, minted })
+    let desc = json!({"strategy": strat(k).1, "outputs": outs_desc, "offered": off_desc, "pre_existing": pre.iter().map(|i| s.utxos[*i].val.coin).collect::<Vec<_>>(), "withdrawal": implicit, "identical_outputs": identical, "burn": burned.as_ref().map(|(_, q)| q.to_string()), "set_min_fee": asked_min_fee, "mints_two_policies": !minted.is_empty(), "ref_script_price": ref_mode, "offered_includes_existing_input": overlap});
+    Some(Inst { tb, utxos: s.utxos, offered, pre, offered_csl, k, desc, outputs_have_assets, implicit, minted, no_reeval: ref_mode || overlap })
 }
 
 fn outpoints_of(tb: &TransactionBuilder) -> Vec<(Vec<u8>, u64)> {
@@ -358,7 +390,7 @@ fn run_leaf(ctx: &mut Ctx, inst: &Inst, tape: &[u64]) -> Vec<(u64, u64)> {
                 }
             }
             // largest-first clause
-            let lf_applicable = inst.k % 4 == 0 || (inst.k % 4 == 2 && !inst.outputs_have_assets);
+            let lf_applicable = !inst.no_reeval && (inst.k % 4 == 0 || (inst.k % 4 == 2 && !inst.outputs_have_assets));
             if lf_applicable {
                 if let (Some(have0), Some(need0)) = (&have_at_entry, &need_at_entry) {
                     if have0.coin < need0.coin {
@@ -427,7 +459,7 @@ fn run_leaf(ctx: &mut Ctx, inst: &Inst, tape: &[u64]) -> Vec<(u64, u64)> {
         Err(e) => {
             let msg = format!("{:?}", e);
             ctx.bucket(&format!("err.{}", sname));
-            if msg.contains("UTxO Balance Insufficient") {
+            if msg.contains("UTxO Balance Insufficient") && !inst.no_reeval {
                 // refuted if the pre-state with ALL offered UTxOs covers outputs + fee
                 let mut tb2 = inst.tb.clone();
                 let mut ok = true;
@@ -575,7 +607,7 @@ fn tuned(ctx: &mut Ctx, r: &mut Rng, _i: u64) {
     let mut desc = inst.desc.clone();
     desc["tuned"] = json!(format!("offered UTxO {}#{} made {} lovelace poorer (slack {} + {})", hx(&victim.0[..4]), victim.1, slack + d, slack, d));
     desc["offered"] = json!(inst.offered.iter().enumerate().map(|(j, oi)| format!("#{} coin={} assets={:?}", j, utxos[*oi].val.coin, utxos[*oi].val.assets.values().collect::<Vec<_>>())).collect::<Vec<_>>());
-    let inst2 = Inst { tb: inst.tb.clone(), utxos, offered: inst.offered.clone(), pre: inst.pre.clone(), offered_csl, k: inst.k, desc, outputs_have_assets: inst.outputs_have_assets, implicit: inst.implicit, minted: inst.minted.clone() };
+    let inst2 = Inst { tb: inst.tb.clone(), utxos, offered: inst.offered.clone(), pre: inst.pre.clone(), offered_csl, k: inst.k, desc, outputs_have_assets: inst.outputs_have_assets, implicit: inst.implicit, minted: inst.minted.clone(), no_reeval: inst.no_reeval };
     ctx.bucket("tuned.second-run");
     run_leaf(ctx, &inst2, &tape);
 }
